@@ -3,6 +3,7 @@ import Driver.FeeMarket
 import Driver.StateDB
 import Driver.Block
 import Driver.Ante
+import Driver.VAuth
 
 def main (args : List String) : IO UInt32 := do
   let stdin ← IO.getStdin
@@ -12,4 +13,5 @@ def main (args : List String) : IO UInt32 := do
   | ["block"] => Driver.loop stdin stdout Driver.Block.step Driver.Block.emptyState; return 0
   | ["statedb"] => Driver.loop stdin stdout Driver.StateDB.step Driver.StateDB.init; return 0
   | ["ante"] => Driver.loop stdin stdout Driver.Ante.step (); return 0
+  | ["vauth"] => Driver.loop stdin stdout Driver.VAuth.step Driver.VAuth.init; return 0
   | _ => IO.eprintln "usage: driver <engine>"; return 2
